@@ -680,7 +680,8 @@ def run(prop_id, tier, seed):
         "exprsmt/decide.py canon_lower/canon_lift: the canonical ABI mapping (oracle), written from the spec",
         "CBMC 6.11 C semantics with --32 --little-endian for the generated C",
         "exprsmt/cinc: 6-file libc header shim (no 32-bit libc headers in the image)",
-        "z3 4.8.12 and cvc5 1.0.3 agree on every query (QF_BV)",
+        "z3 4.8.12 and cvc5 1.0.3 agree on every QF_BV query; QF_BVFP queries (floating-point conversions): z3 decides, cvc5/z3-new "
+        "second opinions (see coverage.floating_point_queries)",
         "rustc / g++ as the reference for the Rust / C++ translator validation",
     ]
     out.assumptions = [
@@ -688,7 +689,11 @@ def run(prop_id, tier, seed):
         "Go: uintptr is modelled at the wasm boundary width (32 bits)",
         "Rust MaybeUninit<u64> (PointerOrI64 slot) is modelled as its initialised u64 payload",
         "language types wider than the WIT type (MoonBit Int for s8/s16, UInt for u16): lowering is required only for in-range values",
-        "bool lifting: 0 and 1 must map to false/true; other inputs may give `x != 0` or trap (recorded, not required)",
+        "bool lifting: 0 and 1 must map to false/true; any other non-zero core value must lift to true (spec convert_int_to_bool) "
+        "or trap (abi.rs doc comment of BoolFromI32); lifting it to false is a violation (role suffix /noncanonical-nonzero-lifts-false)",
+        "floating-point conversions inside an emitted expression: IEEE 754 round-to-nearest-even; the bit-exact goal is stated for inputs "
+        "under which no conversion sees a NaN (NaN payloads of conversions are nondeterministic on wasm), plus NaN-in => NaN-out; "
+        "out-of-range float->int is undefined/unspecified (trap) except Rust `as` (saturating)",
         "char: lifting/lowering required on Unicode scalar values only",
         "payload language types in variants are taken from the generated declarations of the same probe",
     ]
